@@ -24,7 +24,7 @@ ASSUMPTIONS = ["Redis and RabbitMQ are wire-level fakes", "virtual time; slack a
                "'completed' = a terminal disposition took effect at the broker; an actor that finished but whose ack was cut off and whose message went back is ordinary at-least-once redelivery",
                "process death = both wire directions cut and every task of the process cancelled; judged from server state only"]
 EVAL_COUNTER = "injections_judged"
-REQUIRED = ["injections_judged", "stop_injections", "death_injections", "messages_classified", "inflight_at_injection", "phase_actor_body", "phase_broker_call", "recoveries_checked"]
+REQUIRED = ["injections_judged", "stop_injections", "death_injections", "limit_stops", "messages_classified", "inflight_at_injection", "phase_actor_body", "phase_broker_call", "recoveries_checked"]
 CASE_TIMEOUT = 600
 SHARD_TIMEOUT = {"quick": 1200, "thorough": 3600}
 EXEC_TIMEOUT = 20.0
@@ -49,6 +49,9 @@ def gen_cases(tier, seed):
             if kind != "mem":
                 for part in range(parts):
                     cases.append(dict(base, fault="death", graceful=3.0, sample=0.01 if tier == "quick" else 0.05, part=part, parts=parts))
+            # stop by message limit: the stop instant is set by completions, so vary M, durations and latency instead of the step
+            for M in ((1, 2) if tier == "quick" else (1, 2, 3)):
+                cases.append(dict(base, fault="limit", graceful=rnd.choice([0.0, 0.5, 3.0]), M=M, sample=0, part=0, parts=1))
     return cases
 
 
@@ -97,7 +100,8 @@ async def scenario(loop, case, inject_step, info):
                 script = {"do": "ok", "d": j["d"], "ret": {"v": i}}
             await w.job("act", id_, script, retries=1, timeout=timedelta(seconds=EXEC_TIMEOUT), store_result=(j["kind"] == "result")).enqueue()
         sig = __import__("signal").SIGUSR1
-        worker = w.worker([r], tasks_limit=case["tl"], graceful_shutdown_time=case["graceful"], handle_signals=[sig])
+        wkw = {"messages_limit": case["M"]} if case.get("M") else {}
+        worker = w.worker([r], tasks_limit=case["tl"], graceful_shutdown_time=case["graceful"], handle_signals=[sig], **wkw)
         start_step = loop.steps
         info["start_step"] = start_step
         run_task = loop.create_task(worker.run(), name="worker-run")
@@ -143,6 +147,7 @@ async def scenario(loop, case, inject_step, info):
             returned = True
         t_return = loop.time()
         loop.step_hook = None
+        info["limit_returned"] = returned
         if inject_step is None and not returned:
             # undisturbed run: stop it ourselves at the horizon
             fire_stop(loop)
@@ -298,6 +303,31 @@ def run_case(case):
     out, fps = [], set()
     rnd = random.Random(case["seed"] + 7)
     base = {}
+    if case["fault"] == "limit":
+        # several latency/seed variants of the same scenario; each is one judged "injection" (the M-th completion)
+        for variant in range(4):
+            c2 = dict(case, seed=case["seed"] + variant, latency=case["latency"] if variant % 2 == 0 or case["kind"] == "mem" else 0.004)
+            info = {}
+            r2 = vl.run(lambda loop, c2=c2: scenario(loop, c2, None, info), max_steps=3_000_000, seed=c2["seed"])
+            if r2.exc is not None or "snapshot" not in info:
+                stats["inconclusive_runs"] += 1
+                continue
+            stats["injections_judged"] += 1
+            stats["limit_stops"] += 1
+            info["phase"] = "limit"
+            fps.add(f"{case['kind']}/limit/{case['M']}/{case['graceful']}/{variant}/{case['tl']}")
+            if not info.get("limit_returned"):
+                out.append(V("late_return", case["kind"], "limit/no-return", f"messages_limit={case['M']}: run() had not returned after 16 s"))
+            elif info["exc"]:
+                out.append(V("late_return", case["kind"], "raised:" + info["exc"].split("(")[0], f"messages_limit={case['M']}: run() raised {info['exc']}"))
+            classify(c2, info, out, stats, f"limit/M={case['M']}")
+        seen, vv = set(), []
+        for v in out:
+            key = (v["rule"], v["broker"], v["context"])
+            if key not in seen:
+                seen.add(key)
+                vv.append(v)
+        return {"fp": None, "fps": sorted(fps), "viol": vv[:8], "stats": dict(stats)}
     res = vl.run(lambda loop: scenario(loop, case, None, base), max_steps=3_000_000, seed=case["seed"])
     if res.exc is not None or "event_steps" not in base:
         return {"fp": None, "viol": [], "stats": {}, "inconclusive": f"baseline failed: {type(res.exc).__name__}: {res.exc}"}
